@@ -56,7 +56,8 @@ def rhs_to_ast(r, subs=None):
         if d[0] == "unif":
             return ("draw", ("unif", d[1], d[2]))
         if d[0] == "cont":
-            order = {"Normal": ["mu", "sigma2"], "Uniform": ["a", "b"], "Laplace": ["mu", "b"], "Exponential": ["lamb"],
+            # argument order = attribute names sorted (the convention of the pass models, e.g. law "Laplace" [b; mu])
+            order = {"Normal": ["mu", "sigma2"], "Uniform": ["a", "b"], "Laplace": ["b", "mu"], "Exponential": ["lamb"],
                      "Gamma": ["k", "theta"], "Beta": ["a", "b", "scale"]}.get(d[1])
             if order is None:
                 raise NotModelled(f"distribution {d[1]}")
